@@ -20,7 +20,7 @@ import switch_tables as st
 import switch_cases as sc
 
 LEVEL = "proof"
-EXTRA_TARGETS = ["nxdrv_C18"]
+EXTRA_TARGETS = ["nxdrv_C18", "nxdrv_C02"]
 
 DEVID = 0x6265A1B2C3D4E5F6
 
@@ -706,7 +706,9 @@ def run(ctx):
                 "assignment sequences, copies; effects: every key x two values x five base configurations observed on the real consumer "
                 "objects; setters: every set_* of the ten HTTP clients x two values x public calls, both before the first call and after a "
                 "first call on the same object (same effect required); several Settings objects created / mutated / copied / loaded / reset in "
-                "mixed order inside one fresh interpreter per scenario (fixed + seeded random), against an independent reference and the model. "
+                "mixed order inside one fresh interpreter per scenario (fixed + seeded random), against an independent reference and the model; "
+                "behaviour: two or more values of prudp.resend_timeout / resend_limit / ping_timeout / fragment_size / max_substream_id measured on real endpoints in "
+                "virtual time (silent peer, link dying mid-session, idle connection, fragmentation, substreams), each session replayed through the Lean L1 model. "
                 "A case is non-trivial when it "
                 "reaches the code under test; distinct = distinct (kind, inputs)")
     api_inventory.run(ctx)
@@ -734,6 +736,8 @@ def run(ctx):
     switch_setter_checks(ctx, mods, tdata, None)
     diffs += [("legacy",) + d[:3] for d in legacy_checks(ctx, drv)]
     construct_checks(ctx)
+    import api_behaviour
+    api_behaviour.run(ctx, ctx.driver("C02"))
     ctx.traces_validated += len(diffs) * 0 + ctx.evaluations
     for name in sorted(failed):
         if not [v for v in ctx.violations if not v[3]]:
